@@ -288,6 +288,7 @@ def install(M, knobs, report):
             report["c15"].append({"cls": "restore_failed", "loader": "Loader", "family": "Loader", "id": "", "phase": "restore",
                                   "expected": "", "observed": f"{type(e).__name__}: {str(e)[:300]}"})
             return report
+        mine = []          # (loader attr, key repr, what THIS process read back) for the cross-process comparison
         for (name, kr), (exp, _id) in sorted(state["latest"].items(), key=lambda kv: (kv[0][0], kv[0][1])):
             if exp is None:
                 continue
@@ -303,11 +304,34 @@ def install(M, knobs, report):
                 err = None
             except BaseException as e:  # noqa
                 got, err = None, f"{type(e).__name__}: {str(e)[:200]}"
+            mine.append((name, kr, got if err is None else "ERR:" + err.split(":")[0], type(sub).__name__))
             if not same_content(exp, got) and len(report["c15"]) < 40:
                 cls = "restore_failed_read" if err else ("lost_after_restore" if got in ("null", None) else (
                     "stale_after_restore" if got in state["hist"].get((name, kr), ()) else "corrupt_after_restore"))
                 report["c15"].append({"cls": cls, "loader": name, "family": type(sub).__name__, "id": kr, "phase": "restore",
                                       "expected": exp[:500], "observed": (err or got or "")[:500]})
+        # ---- the same workspace restored by ANOTHER process under another string-hash seed must read back the same
+        if knobs.get("xprocess_hashseed") and mine:
+            try:
+                import subprocess
+                import tempfile
+                from sim.core import PYTHON, VERIF_DIR, pinned_env
+                sample = mine[:: max(1, len(mine) // 120)]
+                fd, spec_path = tempfile.mkstemp(prefix="xspec-", suffix=".json", dir=os.path.dirname(old.options.workspace.rstrip("/")) or None)
+                with os.fdopen(fd, "w") as f:
+                    _json.dump({"workspace": old.options.workspace, "items": [[n, k] for n, k, _, _ in sample]}, f)
+                r = subprocess.run([PYTHON, "-B", os.path.join(VERIF_DIR, "sim", "xproc_restore_loader.py"), spec_path],
+                                   env=pinned_env(hashseed=str(knobs["xprocess_hashseed"])), capture_output=True, text=True, timeout=300)
+                os.remove(spec_path)
+                other = _json.loads(r.stdout.strip().splitlines()[-1])
+                bump("c15_xprocess_items", len(sample))
+                for i, (n, kr, got, fam_name) in enumerate(sample):
+                    if other.get(str(i)) != got and len(report["c15"]) < 40:
+                        report["c15"].append({"cls": "xprocess_mismatch", "loader": n, "family": fam_name, "id": kr, "phase": "restore_other_process",
+                                              "expected": (got or "None")[:400], "observed": (other.get(str(i)) or "None")[:400]})
+            except Exception as e:  # noqa
+                bump("c15_monitor_errors")
+                report["notes"].append(f"cross-process restore failed: {e!r}"[:300])
         # dict-backed loaders: the public containers of the old and the restored loader must agree
         skip = {"path", "schema", "options", "EdgeNodePair"}
         for name, sub in sorted(vars(old).items()):
@@ -366,7 +390,8 @@ def gen_invivo_ops(rng, n_modules=None, size=None):
                 "max_rows": rng.choice([1, 3, 8, 20, 60, 400000]),
                 "caps": {"LRU_CACHE_CAPACITY": rng.choice([1, 2, 3, 20]), "BUNDLE_CACHE_CAPACITY": rng.choice([1, 2]),
                          "GIR_CACHE_CAPACITY": rng.choice([1, 2, 1000]), "MIN_CACHE_CAPACITY": 1},
-                "sample_every": rng.choice([1, 3, 7])})
+                "sample_every": rng.choice([1, 3, 7]),
+                "xprocess_hashseed": rng.randrange(1, 2 ** 31) if rng.random() < 0.5 else 0})
     return ops
 
 
@@ -389,7 +414,8 @@ def run_ops(ops, timeout=240):
             os.makedirs(os.path.dirname(fp), exist_ok=True)
             with open(fp, "w", encoding="utf-8") as f:
                 f.write(op["content"])
-        knobs = {"max_rows": run.get("max_rows", 400000), "caps": run.get("caps", {}), "sample_every": run.get("sample_every", 7)}
+        knobs = {"max_rows": run.get("max_rows", 400000), "caps": run.get("caps", {}), "sample_every": run.get("sample_every", 7),
+                 "xprocess_hashseed": run.get("xprocess_hashseed", 0)}
         argv = lianrun.build_argv({"sub": run.get("sub", "run"), "lang": "python", "force": True, "workspace": os.path.join(B, "ws"),
                                    "inputs": [proj], "flags": run.get("flags", [])}, ctx["settings"])
 
